@@ -383,6 +383,54 @@ func emitTable(g *h.G, t []h.Row, class string) {
 	g.Emit("go.spec", ts)
 }
 
+// specCost estimates the number of steps of the (unmemoised, tree-recursive) Lean specification on row 0.
+func specCost(t []h.Row) int {
+	const cap = 1 << 24
+	ch := make([][6]int, len(t)) // hash cost per level
+	cd := make([][6]int, len(t)) // depth cost per level
+	for i := len(t) - 1; i >= 0; i-- {
+		r := t[i]
+		for l := 0; l <= 5; l++ {
+			cl := l
+			if r.Ty == 3 || r.Ty == 4 {
+				cl = l + 1
+			}
+			if cl > 5 {
+				cl = 5
+			}
+			sig := l == 0 || (l <= 3 && (r.Mask>>(uint(l)-1))&1 == 1)
+			switch {
+			case r.Ty == 1 && l < h.SpecLevel(r.Mask):
+				ch[i][l], cd[i][l] = 1, 1
+			case !sig:
+				ch[i][l], cd[i][l] = ch[i][l-1]+1, cd[i][l-1]+1
+			default:
+				a, b := 1, 1
+				if l > 0 && r.Ty != 1 {
+					a += ch[i][l-1]
+				}
+				for _, c := range r.Refs {
+					a += ch[c][cl] + cd[c][cl]
+					b += cd[c][cl]
+				}
+				if a > cap {
+					a = cap
+				}
+				if b > cap {
+					b = cap
+				}
+				ch[i][l], cd[i][l] = a, b
+			}
+		}
+	}
+	total := 0
+	for l := 0; l < 4; l++ {
+		total += ch[0][l] + cd[0][l]
+	}
+	// tooDeep evaluates the depths of every cell of the unfolded tree
+	return total + 8*unfoldedSize(t)
+}
+
 func unfoldedSize(t []h.Row) int {
 	size := make([]int, len(t))
 	for i := len(t) - 1; i >= 0; i-- {
@@ -430,7 +478,7 @@ func genC02(g *h.G) {
 		}
 		emitTable(g, t, "class_exotic_dag")
 		ts := h.TableString(t)
-		if unfoldedSize(t) <= 400 {
+		if specCost(t) <= 2500 {
 			g.Emit("spec.levels", ts)
 			g.Count("spec_direct")
 		}
